@@ -651,6 +651,13 @@ def step (st : St) (toks : List String) : St × String :=
       ({ st with objs := st.objs.insert name (.world { w with listeners := Listener.step w.listeners f, udpSinceBase := w.udpSinceBase || touchesUdp }) },
        if na then "n/a" else "done")
     | _, _ => (st, "bad-op")
+  | "e2e.resolver" :: name :: _ =>
+    -- flows whose names meet a resolver that stays silent wait by themselves: a flow to an address is served meanwhile
+    match st.objs.get? name with
+    | some (.world w) =>
+      ({ st with objs := st.objs.insert name (.world { w with listeners := Listener.step w.listeners .resolverStall }) },
+       if w.listeners.serves && w.serverUp then "served" else "failed")
+    | _ => (st, "bad-op")
   | ["e2e.server", name, what] =>
     match st.objs.get? name with
     | some (.world w) =>
